@@ -107,6 +107,8 @@ class LawHooks:
         # private helpers a law delegates to: module-level functions of components.py and methods of the kind's own class
         def simple(fn):
             return not any(isinstance(x, (ast.For, ast.While, ast.Try, ast.With)) for x in ast.walk(fn))
+        if fname in ("_get_eff", "_get_lopt", "_get_opt", "_get_mand", "_get_warns"):
+            return None          # modelled by the call hook / kept opaque on purpose
         if fname.isidentifier() and ("components", fname) in self.model.funcs:
             fn = self.model.funcs[("components", fname)]
             return (fn, False) if simple(fn) else None
